@@ -12,7 +12,7 @@ from . import mapmodel as mm, docgen
 ENVELOPE = ('ISA', 'GS', 'ST', 'SE', 'GE', 'IEA', 'TA1')
 ELEMENT_KINDS = ['too-long', 'too-short', 'not-in-code-list', 'wrong-char-class', 'control-char', 'bad-date', 'bad-time',
                  'required-removed', 'not-used-filled', 'extra-element', 'extra-component', 'syntax-note', 'date-format-mismatch']
-SEGMENT_KINDS = ['unknown-segment', 'required-segment-removed', 'segment-over-max', 'loop-over-max', 'segment-out-of-place']
+SEGMENT_KINDS = ['unknown-segment', 'required-segment-removed', 'segment-over-max', 'loop-over-max', 'segment-out-of-place', 'loop-body-removed']
 MALFORMED_KINDS = ['junk-segment']
 KINDS = ELEMENT_KINDS + SEGMENT_KINDS
 
@@ -227,6 +227,32 @@ def candidates(doc, kind):
             firsts = [x for x in doc.segs if x.node is s.node and x.chain[:-1] == parent_chain]
             if firsts and firsts[-1] is s:
                 out.append((i, lim - len(firsts) + 1, None))
+    elif kind == 'loop-body-removed':
+        # a loop instance cut down to its first segment, followed at once by the next instance of the same loop
+        for i, s in enumerate(doc.segs):
+            if s.id in ENVELOPE or s.id == 'HL' or not s.chain:
+                continue
+            loop = s.chain[-1][0]
+            if loop.children[0] is not s.node or loop.type == 'wrapper':
+                continue
+            if not any(c.usage == 'R' for c in loop.children[1:]):
+                continue
+            depth = len(s.chain)
+            end = i + 1
+            while end < len(doc.segs) and len(doc.segs[end].chain) >= depth and doc.segs[end].chain[:depth] == s.chain:
+                end += 1
+            # the same situation made by putting a bare copy of the first segment in front of an instance (when the loop may repeat)
+            siblings = [x for x in doc.segs if x.node is s.node and x.chain[:-1] == s.chain[:-1]]
+            if mm.limit(loop.repeat) > len(siblings) and not any(x.id == 'HL' for x in doc.segs[i:end]):
+                out.append((i, i, None))
+            if end == i + 1 or end >= len(doc.segs):
+                continue
+            nxt = doc.segs[end]
+            if nxt.node is not s.node or nxt.chain[:-1] != s.chain[:-1]:
+                continue
+            if any(x.id == 'HL' for x in doc.segs[i:end]):
+                continue
+            out.append((i, end, None))
     return out
 
 
@@ -452,6 +478,24 @@ def inject(doc, kind, loc, seed):
         exp.update(ele=None, sub=None, codes=['4'], value=None, local=False, level='seg')
     elif kind == 'segment-out-of-place':
         return None
+    elif kind == 'loop-body-removed':
+        end = loc[1]
+        loop = s.chain[-1][0]
+        missing = []
+        for c in loop.children[1:]:
+            if c.usage != 'R':
+                continue
+            if c.kind == 'seg':
+                missing.append(c.id)
+            elif c.kind == 'loop' and c.children and c.children[0].kind == 'seg':
+                missing.append(c.children[0].id)
+        if end == i:
+            top = max([inst for x in d.segs for (_n, inst) in x.chain] or [0]) + 1
+            d.segs.insert(i, docgen.GSeg(s.node, [list(x) for x in s.vals], list(s.chain[:-1]) + [(loop, top)]))
+        else:
+            del d.segs[i + 1:end]
+        i = i + 1
+        exp.update(seg_id=None, removed_list=missing, ele=None, sub=None, codes=['3'], value=None, local=False, level='seg', immediate_repeat=True)
     docgen.fixup(d, 4242)
     isa, gs, st, pos = coords(d, i)
     exp.update(isa=isa, gs=gs, st=st, pos=pos, seg_index=i)
